@@ -376,3 +376,58 @@ Example C12_placeholder_classification :
   classify [77;101;115;115;97;103;101] = PTok (KAttr [77;101;115;115;97;103;101] false 0 0) /\
   classify [32;109;101;115;115;97;103;101] = PTok (KAttr [32;109;101;115;115;97;103;101] false 0 0).
 Proof. vm_compute. repeat split. Qed.
+
+(* ---- 7. the fluent front end (round 8): SimplePipeline::format(pattern) ----
+   An application rarely constructs a PatternFormatter itself: it writes pipeline.format("..."), and the front end decides which
+   formatter object the pipeline gets and from which argument it is made.  [src_pattern_front] is translated from the body of
+   SimplePipeline::format(const QString &) / formatByQt() (simplepipeline.cpp) and from messagepatterns.h on every run.
+   [front_format fr hs p m] = the text the pipeline built by format(p) gives for m, in a process that has called format(h) for
+   every h of [hs] before; [reserved_names] = "default", "qt", "pretty" (the names of ready-made formats). *)
+Require Import QtlVerif.PatternFrontDefs QtlVerif.PatternFrontProofs.
+Theorem C12_source_front_end_good : front_goodb src_pattern_front = true.
+Proof. vm_compute. reflexivity. Qed.
+Print Assumptions C12_source_front_end_good.
+
+(* every pattern that is not one of the three names reaches the PatternFormatter constructor unchanged, whatever was requested
+   before: the pipeline's text is format_pattern p m, so that EVERY theorem above holds for formatters obtained the fluent way *)
+Theorem C12_front_end_is_transparent : forall hs p m, ~ In p reserved_names ->
+  front_format src_pattern_front hs p m = Some (format_pattern p m).
+Proof. exact (front_transparent src_pattern_front C12_source_front_end_good). Qed.
+Print Assumptions C12_front_end_is_transparent.
+(* ... in particular every pattern in which a '%' occurs (a name has none) *)
+Theorem C12_pattern_with_a_percent_sign_is_not_a_reserved_name : forall p, In c_pct p -> ~ In p reserved_names.
+Proof. exact percent_not_reserved. Qed.
+Print Assumptions C12_pattern_with_a_percent_sign_is_not_a_reserved_name.
+(* ... and the object the pipeline holds is the very state machine of section 4b: k messages in a row *)
+Theorem C12_front_end_object_is_the_direct_object : forall hs p leftover ms, ~ In p reserved_names ->
+  front_format_seq src_pattern_front hs p leftover ms = Some (format_seq p leftover ms).
+Proof. exact (front_seq_is_direct_seq src_pattern_front C12_source_front_end_good). Qed.
+Print Assumptions C12_front_end_object_is_the_direct_object.
+Theorem C12_front_end_sequence_is_a_function_of_pattern_and_message : forall hs p leftover ms, ~ In p reserved_names ->
+  front_format_seq src_pattern_front hs p leftover ms = Some (map (format_pattern p) ms).
+Proof. exact (front_seq_transparent src_pattern_front C12_source_front_end_good). Qed.
+Print Assumptions C12_front_end_sequence_is_a_function_of_pattern_and_message.
+(* the name "default" stands for DefaultMessagePattern of messagepatterns.h, formatted by the same PatternFormatter *)
+Theorem C12_front_end_default_name : forall hs m,
+  front_format src_pattern_front hs x_default m = Some (format_pattern src_default_message_pattern m).
+Proof. exact (front_named_const src_pattern_front x_default src_default_message_pattern eq_refl C12_source_front_end_good). Qed.
+Print Assumptions C12_front_end_default_name.
+(* not vacuous: front ends that do not hand the argument on / trim it / hand out one shared static object are refuted *)
+Theorem C12_front_end_dropping_the_pattern_refuted : exists p m, In c_pct p /\
+  front_format dropped_front [] p m <> Some (format_pattern p m).
+Proof. exact dropped_front_refuted. Qed.
+Print Assumptions C12_front_end_dropping_the_pattern_refuted.
+Theorem C12_front_end_shared_formatter_object_refuted : exists hs p m, In c_pct p /\
+  front_format shared_front hs p m <> Some (format_pattern p m) /\ front_format shared_front [] p m = Some (format_pattern p m).
+Proof. exact shared_front_refuted. Qed.
+Print Assumptions C12_front_end_shared_formatter_object_refuted.
+Theorem C12_front_end_trimming_the_pattern_refuted : exists p m, In c_pct p /\
+  front_format trimmed_front [] p m <> Some (format_pattern p m).
+Proof. exact trimmed_front_refuted. Qed.
+Print Assumptions C12_front_end_trimming_the_pattern_refuted.
+Example C12_front_nonvacuous :
+  front_format src_pattern_front [x_pat_m; x_default; x_qt] x_d1_pat (msg0 Info x_hello []) = Some x_d1_out /\
+  front_format src_pattern_front [] x_qt (msg0 Info x_hello []) = None /\
+  front_goodb dropped_front = false /\ front_goodb shared_front = false /\ front_goodb trimmed_front = false /\
+  by_qt src_pattern_front = TQt.
+Proof. vm_compute. repeat split. Qed.
